@@ -62,7 +62,7 @@ def sankoff(tree, rows, dt, gaps_as_missing, weights):
 class C16(Machine):
     name = "c16"
     property_id = "C16"
-    runs = {"quick": 40000, "thorough": 2000000}
+    runs = {"quick": 40000, "thorough": 1200000}
     batch = 100
     rule = ("one long-lived bifurcating tree, 2-4 matrices over its namespace, 3-20 steps of scoring calls (all flag combinations), "
             "child rotations and re-rootings; distinct = sequences of (operation, matrix) with at least two different matrices scored on the same tree object")
@@ -86,7 +86,7 @@ class C16(Machine):
             mats.append(gen.sequences(rng, labs, nchar, syms, easy=rng.choice([0.5, 0.8, 0.95])))
         steps = []
         ops = ["score", "score", "score", "score", "down_pass_attr", "down_pass_noattr", "rotate", "reroot", "reroot_node", "score_fresh"]
-        for _ in range(rng.randint(3, 20)):
+        for _ in range(rng.randint(3, 50 if tier == "thorough" else 20)):
             steps.append({"op": rng.choice(ops), "m": rng.randrange(10), "gaps": rng.random() < 0.6,
                           "weights": [rng.randint(0, 3) for _ in range(6)] if rng.random() < 0.3 else None,
                           "bychar": rng.random() < 0.5, "k": rng.randrange(1000), "attr": rng.choice(["state_sets", "ss2"])})
